@@ -61,6 +61,7 @@ fn bloom_cfg(kind: u8) -> Option<BloomConfig> {
     match kind {
         0 => None,
         1 => Some(BloomConfig { elements: 50, hashers_count: 2, max_buf_bits_count: 1001, buf_increase_step: 7, preferred_false_positive_rate: 0.01 }),
+        3 => Some(BloomConfig::default()),
         _ => Some(BloomConfig { elements: 300, hashers_count: 3, max_buf_bits_count: 4099, buf_increase_step: 13, preferred_false_positive_rate: 0.001 }),
     }
 }
@@ -182,6 +183,11 @@ async fn gen_sized<const N: usize>(root: &Path, bloom: u8, n_blobs: usize, seed:
 async fn main() {
     let root = PathBuf::from(std::env::args().nth(1).expect("usage: corpus_gen <out dir>"));
     std::fs::create_dir_all(&root).unwrap();
+    // pearl's default bloom configuration (filters of several hundred KiB per blob)
+    if std::env::var("CORPUS_ONLY_DEFAULT_BLOOM").is_ok() {
+        gen_sized::<8>(&root, 3, 2, 0xDEF_0008, 14, 10, 14, "").await;
+        return;
+    }
     // multi-leaf / two-level index files
     gen_sized::<8>(&root, 1, 3, 0xB16_0008, 400, 600, 600, "-big").await;
     gen_sized::<32>(&root, 2, 2, 0xB16_0032, 300, 600, 400, "-big").await;
@@ -189,6 +195,7 @@ async fn main() {
     if std::env::var("CORPUS_ONLY_BIG").is_ok() {
         return;
     }
+    gen_sized::<8>(&root, 3, 2, 0xDEF_0008, 14, 10, 14, "").await;
     let mut seed = 0xC17u64;
     for bloom in 0..3u8 {
         for n_blobs in 1..=4usize {
